@@ -157,7 +157,7 @@ def build_input(cont: str, items: list, hit):
     if head == "str":
         vals = [v for _, v, _ in items]
         if sub == "wide":
-            return np.array(vals, dtype="<U40")
+            return np.array(vals, dtype=f"<U{max([len(v) for v in vals] + [1]) + 17}")
         if sub == "strided":
             return np.array([w for v in vals for w in (v, "pad")], dtype=np.str_)[::2]
         return np.array(vals, dtype=np.str_)
